@@ -406,6 +406,8 @@ func runC09(c *core.Ctx) {
 	c09Bytes(c, sp, idp)
 	c09Resolver(c, sp)
 	c09Placements(c, sp)
+	c09KeyInfoShapes(c)
+	c09KeyPlacement(c, sp)
 	c09EncryptedLengths(c, sp)
 }
 
@@ -816,6 +818,203 @@ func c09EncryptedLengths(c *core.Ctx, sp *saml.ServiceProvider) {
 						}
 					})
 				}
+			}
+		}
+	}
+}
+
+// c09KeyInfoShapes: every shape of the signature's KeyInfo (which no signature covers, so anybody can rewrite it) under every
+// way the SP can be told whom to trust. The code that picks certificates differs per configuration and runs before any cryptography.
+func c09KeyInfoShapes(c *core.Ctx) {
+	c.Group("keyinfo-shapes-x-trust-configurations")
+	ids := []string{samlgen.ReqID}
+	cert := idp1().CertB64
+	shapes := []struct {
+		name string
+		f    func(ki *etree.Element, sig *etree.Element)
+	}{
+		{"unchanged", func(ki, sig *etree.Element) {}},
+		{"keyinfo-removed", func(ki, sig *etree.Element) { sig.RemoveChild(ki) }},
+		{"keyinfo-empty", func(ki, sig *etree.Element) { ki.Child = nil }},
+		{"x509data-empty", func(ki, sig *etree.Element) { ki.FindElement("./X509Data").Child = nil }},
+		{"certificate-element-empty", func(ki, sig *etree.Element) { ki.FindElement("./X509Data/X509Certificate").Child = nil }},
+		{"certificate-whitespace-only", func(ki, sig *etree.Element) { ki.FindElement("./X509Data/X509Certificate").SetText(" \n ") }},
+		{"certificate-not-base64", func(ki, sig *etree.Element) { ki.FindElement("./X509Data/X509Certificate").SetText("!!!") }},
+		{"certificate-base64-of-garbage", func(ki, sig *etree.Element) { ki.FindElement("./X509Data/X509Certificate").SetText(b64([]byte("not a certificate"))) }},
+		{"certificate-truncated", func(ki, sig *etree.Element) { ki.FindElement("./X509Data/X509Certificate").SetText(cert[:len(cert)/2]) }},
+		{"certificate-with-comment-child", func(ki, sig *etree.Element) {
+			x := ki.FindElement("./X509Data/X509Certificate")
+			x.Child = nil
+			x.CreateComment("c")
+			x.CreateText(cert)
+		}},
+		{"certificate-with-element-child", func(ki, sig *etree.Element) {
+			x := ki.FindElement("./X509Data/X509Certificate")
+			x.Child = nil
+			x.CreateElement("ds:X").SetText(cert)
+		}},
+		{"two-certificates", func(ki, sig *etree.Element) { ki.FindElement("./X509Data").CreateElement("ds:X509Certificate").SetText(samlgen.Key("attacker").CertB64) }},
+		{"two-certificates-first-empty", func(ki, sig *etree.Element) {
+			xd := ki.FindElement("./X509Data")
+			e := etree.NewElement("ds:X509Certificate")
+			xd.InsertChildAt(0, e)
+		}},
+		{"two-x509data", func(ki, sig *etree.Element) { ki.CreateElement("ds:X509Data").CreateElement("ds:X509Certificate").SetText(cert) }},
+		{"keyname-only", func(ki, sig *etree.Element) { ki.Child = nil; ki.CreateElement("ds:KeyName").SetText("idp") }},
+		{"rsakeyvalue-only", func(ki, sig *etree.Element) {
+			ki.Child = nil
+			kv := ki.CreateElement("ds:KeyValue").CreateElement("ds:RSAKeyValue")
+			kv.CreateElement("ds:Modulus").SetText("AQAB")
+			kv.CreateElement("ds:Exponent").SetText("AQAB")
+		}},
+		{"x509-issuer-serial-only", func(ki, sig *etree.Element) {
+			xd := ki.FindElement("./X509Data")
+			xd.Child = nil
+			is := xd.CreateElement("ds:X509IssuerSerial")
+			is.CreateElement("ds:X509IssuerName").SetText("CN=x")
+			is.CreateElement("ds:X509SerialNumber").SetText("1")
+		}},
+		{"two-keyinfo", func(ki, sig *etree.Element) { sig.AddChild(ki.Copy()) }},
+		{"certificate-is-attackers", func(ki, sig *etree.Element) { ki.FindElement("./X509Data/X509Certificate").SetText(samlgen.Key("attacker").CertB64) }},
+	}
+	trusts := []string{"meta1", "meta2", "metanouse", "fingerprint", "pinned", "metaenconly", "metaemptysign"}
+	sps := map[string]*saml.ServiceProvider{}
+	for _, tr := range trusts {
+		sps[tr] = harness.NewSP(harness.SPOpt{Trust: tr})
+	}
+	// a fingerprint configuration whose algorithm is unknown, and one where only the fingerprint is set
+	fpBad := harness.NewSP(harness.SPOpt{Trust: "fingerprint"})
+	bad := "urn:example:no-such-digest"
+	fpBad.IDPCertificateFingerprintAlgorithm = &bad
+	sps["fingerprint-unknown-algorithm"] = fpBad
+	fpOnly := harness.NewSP(harness.SPOpt{Trust: "fingerprint"})
+	fpOnly.IDPCertificateFingerprintAlgorithm = nil
+	sps["fingerprint-without-algorithm"] = fpOnly
+	pinBad := harness.NewSP(harness.SPOpt{Trust: "pinned"})
+	junk := "not a certificate"
+	pinBad.IDPCertificate = &junk
+	sps["pinned-garbage"] = pinBad
+	trusts = append(trusts, "fingerprint-unknown-algorithm", "fingerprint-without-algorithm", "pinned-garbage")
+
+	for _, kind := range []string{"response/R", "response/A", "artifact", "logout-form", "logout-redirect"} {
+		for _, sh := range shapes {
+			for _, tr := range trusts {
+				kind, sh, tr := kind, sh, tr
+				c.Case(fmt.Sprintf("keyinfo/%s/%s/trust=%s", kind, sh.name, tr), func(t *core.T) {
+					t.NonTrivial()
+					sp := sps[tr]
+					var root *etree.Element
+					switch kind {
+					case "response/R", "artifact":
+						root = harness.BuildResponse(samlgen.DefaultResponse(), []*samlgen.Assertion{samlgen.DefaultAssertion()}, harness.Layout{SignResponse: true}, idp1(), spKey())
+					case "response/A":
+						root = harness.BuildResponse(samlgen.DefaultResponse(), []*samlgen.Assertion{samlgen.DefaultAssertion()}, harness.Layout{SignAssertion: true}, idp1(), spKey())
+					default:
+						root = logoutResponseEl(time.Now().UTC())
+						samlgen.Sign(root, idp1(), "")
+					}
+					holder := etree.NewDocument()
+					holder.SetRoot(root)
+					n := 0
+					for _, sig := range findNS(root, samlgen.NSDsig, "Signature") {
+						if ki := sig.FindElement("./KeyInfo"); ki != nil {
+							func() {
+								defer func() { recover() }() // a shape that does not apply to this signature
+								sh.f(ki, sig)
+								n++
+							}()
+						}
+					}
+					doc := samlgen.Doc(root)
+					fam := "keyinfo/" + sh.name + "/" + tr
+					switch kind {
+					case "response/R", "response/A":
+						respContract(t, "ParseXMLResponse", fam, func() (*saml.Assertion, error) { return parseXML(sp, doc, ids) })
+					case "artifact":
+						ar := samlgen.Doc(harness.SoapEnvelope(harness.ArtifactResponseEl("id-artresp-1", "id-resolve-1", samlgen.TS(samlgen.T0), samlgen.S(samlgen.IDPEntity), samlgen.StatusOK, samlgen.Parse(doc))))
+						respContract(t, "ParseXMLArtifactResponse", fam, func() (*saml.Assertion, error) { return sp.ParseXMLArtifactResponse(ar, ids, "id-resolve-1", acsURL) })
+					case "logout-form":
+						anyContract(t, "ValidateLogoutResponseForm", fam, func() (bool, error) { e := sp.ValidateLogoutResponseForm(b64(doc)); return e == nil, e })
+					case "logout-redirect":
+						anyContract(t, "ValidateLogoutResponseRedirect", fam, func() (bool, error) { e := sp.ValidateLogoutResponseRedirect(b64(deflate(doc))); return e == nil, e })
+					}
+					if t.Failed() {
+						t.Input("input", string(trunc(doc, 6000)))
+					}
+				})
+			}
+		}
+	}
+}
+
+// c09KeyPlacement: where the EncryptedKey of an EncryptedAssertion sits and how EncryptedData refers to it (all of it attacker-written,
+// outside every signature): embedded in KeyInfo, a sibling referenced by RetrievalMethod with every kind of URI, a sibling without
+// reference, both. The genuine arrangements must decrypt; none may panic.
+func c09KeyPlacement(c *core.Ctx, sp *saml.ServiceProvider) {
+	c.Group("encrypted-assertion-key-placement")
+	ids := []string{samlgen.ReqID}
+	pt := samlgen.Doc(func() *etree.Element { a := samlgen.DefaultAssertion().Element(); samlgen.Sign(a, idp1(), ""); return a }())
+	uris := []string{"#ek1", "", "#", "ek1", "#other", "#it's", "#'", "#\"", "#ek1'", "#key[1", "#a]b", "#[", "#]", "#ek1[@x='y']", "#//*", "#ek1 or 1=1", "#(", "#)", "#*", "#@", "#ek1/../x", "#\\", "#" + strings.Repeat("k", 5000), "#\u00e9\u4e2d", "##ek1", "#ek1#", "http://example.com/key#ek1", "#%27"}
+	ekIDs := []string{"ek1", "", "it's", "key[1", "a b"}
+	kt := xenc.KeyTransport{Alg: xenc.OAEPMGF1P, DigestURI: "http://www.w3.org/2000/09/xmldsig#sha1"}
+	for _, place := range []string{"embedded", "sibling+retrievalmethod", "sibling-only", "embedded+sibling", "retrievalmethod-only"} {
+		for ui, uri := range uris {
+			for _, ekID := range ekIDs {
+				if place != "sibling+retrievalmethod" && place != "retrievalmethod-only" && ui > 0 {
+					continue
+				}
+				if ekID != "ek1" && ui > 1 && uri != "#"+ekID {
+					continue // other Id values with the default URI and with the URI that names them
+				}
+				place, uri, ekID := place, uri, ekID
+				key := fmt.Sprintf("keyplace/%s/uri=%+q/id=%+q", place, truncStr(uri, 24), ekID)
+				c.Case(key, func(t *core.T) {
+					t.NonTrivial()
+					ed, err := xenc.Encrypt(xenc.AES128CBC, kt, &spKey().Key.(*rsa.PrivateKey).PublicKey, spKey().CertB64, harness.NewCtr(key), pt)
+					if err != nil {
+						t.Fail("C09/harness", "cannot encrypt: %v", err)
+						return
+					}
+					ki := ed.FindElement("./KeyInfo")
+					ek := ki.FindElement("./EncryptedKey")
+					if ekID != "" {
+						ek.CreateAttr("Id", ekID)
+					}
+					ea := etree.NewElement("saml:EncryptedAssertion")
+					ea.CreateAttr("xmlns:saml", samlgen.NSAssertion)
+					ea.AddChild(ed)
+					rm := func() {
+						r := etree.NewElement("ds:RetrievalMethod")
+						r.CreateAttr("Type", "http://www.w3.org/2001/04/xmlenc#EncryptedKey")
+						r.CreateAttr("URI", uri)
+						ki.AddChild(r)
+					}
+					switch place {
+					case "sibling+retrievalmethod":
+						ki.RemoveChild(ek)
+						rm()
+						ea.AddChild(ek)
+					case "sibling-only":
+						ki.RemoveChild(ek)
+						ea.AddChild(ek)
+					case "embedded+sibling":
+						ea.AddChild(ek.Copy())
+					case "retrievalmethod-only":
+						ki.RemoveChild(ek)
+						rm()
+					}
+					resp := samlgen.DefaultResponse().Element()
+					resp.AddChild(ea)
+					doc := samlgen.Doc(resp)
+					e, pan := respContract(t, "ParseXMLResponse-encrypted", "key-placement", func() (*saml.Assertion, error) { return parseXML(sp, doc, ids) })
+					genuine := place == "embedded" || (place == "sibling+retrievalmethod" && uri == "#"+ekID && ekID != "") || place == "embedded+sibling"
+					if !pan && genuine && e != nil && place == "embedded" {
+						t.Fail("C09/ParseXMLResponse-encrypted/rejects-valid/key-placement", "%s: a correctly encrypted and signed assertion is rejected: %s", key, privErr(e))
+					}
+					if t.Failed() {
+						t.Input("input", string(trunc(doc, 6000)))
+					}
+				})
 			}
 		}
 	}
